@@ -20,8 +20,8 @@ SPEC = {
         _g("datastore/leveldb", "leveldb", "leveldb", "TestVerifC15Leveldb", 800),
     ],
     "gen": ["ConfigSchemas"],
-    "force": ["Model/C15_Check.v"],
-    "diag": False,
+    "force": ["Model/C15_Check.v", "Proofs/C15_Tables.v"],
+    "diag": True,
     "rule": "per section: every member of the JSON struct (found by reflection) x every candidate value of its kind on the default document "
             "(boundary stream), random multi-member documents on the default and on the empty document, wrong JSON types, raw non-objects; "
             "non-trivial = at least one member set; distinct = distinct canonical JSON of the input",
